@@ -164,6 +164,8 @@ struct Cx {
     stats: std::collections::BTreeMap<String, SubjStat>,
     case_no: usize,
     tier: String,
+    /// quick tier: a second route to an implementation already driven in full gets the lengths around the vector widths only
+    lite: bool,
 }
 
 impl Cx {
@@ -189,6 +191,7 @@ impl Cx {
             stats: Default::default(),
             case_no: 0,
             tier,
+            lite: false,
         }
     }
     /// start the run of one subject; false when the subject filter excludes it
@@ -197,6 +200,7 @@ impl Cx {
             return false;
         }
         self.subject = name.to_string();
+        self.lite = !self.thorough && ["@default", "@instance", "@global", "@noprefetch", "@unmonitored"].iter().any(|t| name.contains(t));
         self.tr.reset("kernels", name, json!({"fam": fam, "variant": variant, "tier": self.tier, "seed": self.args.seed}));
         self.stats.entry(name.to_string()).or_default();
         true
@@ -360,6 +364,8 @@ impl Cx {
 fn lengths(cx: &Cx) -> Vec<usize> {
     if cx.thorough {
         (0..=130).collect()
+    } else if cx.lite {
+        vec![0, 1, 15, 16, 17, 31, 32, 33, 63, 64, 65, 130]
     } else {
         vec![0, 1, 2, 3, 7, 8, 9, 15, 16, 17, 31, 32, 33, 47, 48, 49, 63, 64, 65, 66, 95, 96, 97, 127, 128, 129, 130]
     }
